@@ -126,6 +126,7 @@ type Interp struct {
 	firstNow   *Term
 	symNames   map[string]StrV
 	pfRE       []*regexModel
+	prefer     *Term
 	clockWindow *Term
 	pid        *Term
 
